@@ -34,6 +34,7 @@ func (c *Ctx) lockAnalysis() *locks.Analysis {
 	if c.la == nil {
 		a := locks.New(c.P)
 		a.Roots = serverRoots(c.P)
+		a.Wrappers = []locks.Wrapper{{Fn: "(*pkg/server.BgpServer).getBestFromLocalCallback", BoolParam: "routeRefresh", Lock: lkRR}}
 		a.Run()
 		c.la = a
 	}
